@@ -447,6 +447,8 @@ def run(repo, rep):
     _log_rule(repo, rep, 'C07', 'C07.Z2')
     from ..api_pitfalls import truth_rule as _truth_rule
     _truth_rule(repo, rep, 'C07', 'C07.Z4')
+    from ..api_pitfalls import attribute_rule as _attribute_rule
+    _attribute_rule(repo, rep, 'C07', 'C07.Z5')
     fsm = repo.module('fsm')
     dec = repo.cls('fsm', 'DIMSEDecoder')
     proc = dec.find_method('process')
